@@ -366,7 +366,8 @@ func runC17schedMenu(x *X, family string, nthreads, opsPer int, bound int, c17Me
 			c17Epoch = serial
 			defer func() { c17Epoch = "" }()
 		}
-		names := []string{"n" + serial, "m" + serial, "never" + serial}
+		// the never-registered name is a proper PREFIX of the registered name n (lookups are exact, not by prefix)
+		names := []string{"n" + serial + "-full", "m" + serial, "n" + serial}
 		builtin := strings.HasPrefix(family, "builtin-name")
 		if builtin {
 			names[1] = c17Builtin
@@ -498,6 +499,9 @@ func runC17(x *X) {
 				names[i] += strings.Repeat("L", pad)
 			}
 		}
+		// the never-registered name is a proper prefix of the registered name n
+		names[2] = "n" + serial + names[0][len("n"+serial):]
+		names[0] = names[2] + "-full"
 		var initial map[string]int
 		if builtin {
 			names[1] = c17Builtin
@@ -543,7 +547,7 @@ func runC17(x *X) {
 	ldepth := x.Pick(5, 6)
 	x.Explore("texttable-lifecycle", ExploreOpts{ShardDepth: 2, Bound: fmt.Sprintf("all sequences of <=%d operations {SetDecorationNamed(known a), SetDecorationNamed(known b), SetDecorationNamed(unknown), SetDecoration(custom), Register(unknown name), Render} on one TextTable", ldepth)}, func(c *Chooser) {
 		serial := nextSerial(x)
-		late, never := "late"+serial, "never"+serial
+		late, never := "late"+serial+"-full", "late"+serial
 		defer resetNames(late)
 		lateInit := prepareNames(late)
 		tt := texttable.New()
